@@ -219,13 +219,77 @@ Proof.
 Qed.
 
 (* ---- C10: modifications in one-level (..) / [..] or two-level parentheses are stripped, the residues stay ---- *)
-Lemma strip_mods_spec toks : Forall wf_tok toks ->
-  remove_modifications (flat_map render toks) = flat_map residues toks.
+Lemma strip_brackets_spec toks : Forall wf_tok toks ->
+  strip_brackets (flat_map render toks) = flat_map residues toks.
 Proof.
-  intros Hwf. unfold remove_modifications. rewrite paren_pass by exact Hwf. rewrite bracket_pass by exact Hwf.
+  intros Hwf. unfold strip_brackets. rewrite paren_pass by exact Hwf. rewrite bracket_pass by exact Hwf.
   induction toks as [|t toks IH]; [reflexivity|]. inversion Hwf as [|? ? Ht Hrest]; subst.
   cbn [flat_map]. rewrite filter_app, IH by exact Hrest. f_equal. destruct t as [c|m|m|a b]; cbn [after_both residues filter]; try reflexivity.
   - cbn [wf_tok] in Ht. destruct (bracket_false c Ht) as [_ [H2 _]]. rewrite H2. reflexivity.
+Qed.
+
+(* stripping the terminal hyphens *)
+Lemma lstrip_chr_all c pre r : (forall x, In x pre -> x = c) -> lstrip_chr c (pre ++ r) = lstrip_chr c r.
+Proof.
+  induction pre as [|x pre IH]; intros H; [reflexivity|]. cbn [app lstrip_chr].
+  rewrite (H x (or_introl eq_refl)), N.eqb_refl. apply IH. intros y Hy. apply H. right. exact Hy.
+Qed.
+
+Lemma lstrip_chr_stop c body r : (forall x, In x body -> x <> c) -> body <> [] -> lstrip_chr c (body ++ r) = body ++ r.
+Proof.
+  intros H Hne. destruct body as [|x body]; [congruence|]. cbn [app lstrip_chr].
+  destruct (N.eqb_spec x c) as [->|_]; [exfalso; apply (H c); [left|]; reflexivity | reflexivity].
+Qed.
+
+Lemma strip_chr_core c pre body post :
+  (forall x, In x pre -> x = c) -> (forall x, In x post -> x = c) -> (forall x, In x body -> x <> c) ->
+  strip_chr c (pre ++ body ++ post) = body.
+Proof.
+  intros Hpre Hpost Hbody. unfold strip_chr. rewrite lstrip_chr_all by exact Hpre.
+  destruct body as [|b0 body'] eqn:Eb.
+  - cbn [app]. assert (E : lstrip_chr c post = []).
+    { clear -Hpost. induction post as [|x post IH]; [reflexivity|]. cbn [lstrip_chr]. rewrite (Hpost x (or_introl eq_refl)), N.eqb_refl.
+      apply IH. intros y Hy. apply Hpost. right. exact Hy. }
+    rewrite E. reflexivity.
+  - rewrite <- Eb in *. rewrite lstrip_chr_stop by (try exact Hbody; rewrite Eb; discriminate).
+    rewrite rev_app_distr. rewrite lstrip_chr_all by (intros x Hx; apply Hpost; apply in_rev; exact Hx).
+    replace (rev body) with (rev body ++ []) by apply app_nil_r.
+    rewrite lstrip_chr_stop.
+    + rewrite app_nil_r. apply rev_involutive.
+    + intros x Hx. apply Hbody. apply in_rev. exact Hx.
+    + rewrite Eb. cbn [rev]. intros E. apply app_eq_nil in E. destruct E as [_ E]. discriminate.
+Qed.
+
+(* general form: what is left is the residues with the hyphens at both ends removed *)
+Lemma strip_mods_general toks : Forall wf_tok toks ->
+  remove_modifications (flat_map render toks) = strip_chr dash (flat_map residues toks).
+Proof. intros Hwf. unfold remove_modifications. rewrite strip_brackets_spec by exact Hwf. reflexivity. Qed.
+
+(* a peptide in any of the notations: an optional N-terminal modification "[m]-", residues (none of them a hyphen) interleaved with
+   modifications, an optional C-terminal modification "-[m]": exactly the residues are left *)
+Definition nterm (m : option str) : str := match m with Some m => lbr :: m ++ [rbr; dash] | None => [] end.
+Definition cterm (m : option str) : str := match m with Some m => dash :: lbr :: m ++ [rbr] | None => [] end.
+Definition plain_opt (m : option str) : Prop := match m with Some m => plain m | None => True end.
+
+Lemma strip_mods_spec toks n c : Forall wf_tok toks -> plain_opt n -> plain_opt c ->
+  (forall x, In x (flat_map residues toks) -> x <> dash) ->
+  remove_modifications (nterm n ++ flat_map render toks ++ cterm c) = flat_map residues toks.
+Proof.
+  intros Hwf Hn Hc Hres.
+  set (ntoks := match n with Some m => [ModB m; Res dash] | None => [] end).
+  set (ctoks := match c with Some m => [Res dash; ModB m] | None => [] end).
+  assert (E : nterm n ++ flat_map render toks ++ cterm c = flat_map render (ntoks ++ toks ++ ctoks)).
+  { rewrite !flat_map_app. unfold ntoks, ctoks, nterm, cterm. destruct n as [mn|], c as [mc|]; cbn [flat_map render app];
+      repeat (rewrite <- ?app_assoc; cbn [app]); rewrite ?app_nil_r; reflexivity. }
+  rewrite E. rewrite strip_mods_general.
+  - rewrite !flat_map_app.
+    apply strip_chr_core.
+    + unfold ntoks. destruct n; cbn [flat_map residues app]; intros x Hx; [destruct Hx as [<-|[]]; reflexivity | destruct Hx].
+    + unfold ctoks. destruct c; cbn [flat_map residues app]; intros x Hx; [destruct Hx as [<-|[]]; reflexivity | destruct Hx].
+    + exact Hres.
+  - apply Forall_app. split; [|apply Forall_app; split; [exact Hwf|]].
+    + unfold ntoks. destruct n as [mn|]; [|constructor]. constructor; [exact Hn|]. constructor; [reflexivity | constructor].
+    + unfold ctoks. destruct c as [mc|]; [|constructor]. constructor; [reflexivity|]. constructor; [exact Hc | constructor].
 Qed.
 
 (* ================= targets and decoys never mix ================= *)
